@@ -666,7 +666,18 @@ class SymQ:
             # the real value differs from the model by at most err; rounding is determined unless
             # the model value is within err of a tie.  Ties are at distance 0 or >= 1/(2 den).
             if self.err >= Fraction(1, 2 * self.den):
+                # the error can carry the value across a tie: any integer within 1/2 + err of the model value;
+                # the path becomes rounding-dependent (counterexamples on it must replay on the real code)
                 PREC.flag("round-inexact", "round() of value with error bound %s" % float(self.err))
+                r = engine.cur()
+                k = r.fresh_int("rnd")
+                e = Fraction(self.err)
+                D = 2 * self.den * e.denominator
+                w = self.den * e.denominator + 2 * e.numerator * self.den      # (1/2 + err) * D
+                r.assume(z3.And(2 * e.denominator * (k * self.den - self.num) <= w,
+                                2 * e.denominator * (self.num - k * self.den) <= w))
+                r.approx = "round() of a value with rounding error bound %s" % float(e)
+                return SymInt(k, bound=None if self.bound is None else int(self.bound) + 1)
             if self.sr and self.bound is not None and 2 * self.bound < (1 << 52):
                 # a single correctly rounded operation: an exact tie x.5 is representable, hence computed
                 # exactly and rounded half-to-even; any other value is further than err from a tie
